@@ -58,6 +58,7 @@ def run_times_case(prog, params):
             name = 't%d' % step
             sr.syms[name] = ex.fresh(name, 64)
             tv = sr.syms[name]
+            ex.assume(z3.ULT(tv, z3.BitVecVal(1 << 62, 64)))     # representable as a SystemTime (i64 seconds)
             sr.do('set_time f %s $%s' % (which, name))
             o = sr.last
             key = '%s|set_%s%s' % (key0, NAMES[which], '' if step == 0 else '|second')
